@@ -476,10 +476,15 @@ impl Planner {
             for (i, it) in other.iter().enumerate() {
                 siblings.entry(optable(&it.text)).or_default().push((false, i));
             }
-            let n_sessions = if thorough { 4000 } else { 250 };
+            // short sessions (3-8 calls, every position judged) and long ones
+            // (12-40 calls, every position from the ninth on judged: a state that
+            // builds up over many calls - a counter, a budget, a growing table -
+            // needs more history than any short session has)
+            let configs: [(usize, usize, usize, usize, u64); 2] = if thorough { [(4000, 3, 6, 1, 0x5E55), (300, 12, 29, 8, 0x5E57)] } else { [(250, 3, 6, 1, 0x5E55), (24, 12, 29, 8, 0x5E57)] };
+            for (n_sessions, len_lo, len_span, judge_from, salt) in configs {
             for si in 0..n_sessions {
-                let mut r = SplitMix64::new(hmix(&[self.seed, 0x5E55, si as u64]));
-                let len = 3 + r.below(6);
+                let mut r = SplitMix64::new(hmix(&[self.seed, salt, si as u64]));
+                let len = len_lo + r.below(len_span);
                 // (in literals?, index, dual, shuffle, battery)
                 let mut elems: Vec<(bool, usize, bool, Option<u64>, bool, Option<u64>)> = vec![];
                 for j in 0..len {
@@ -508,7 +513,7 @@ impl Planner {
                     let abort = if self.hooks && !battery && r.chance(1, 6) { Some(1 + r.below(48) as u64) } else { None };
                     elems.push((in_lit, ix, dual, shuffle, battery, abort));
                 }
-                for j in 1..len {
+                for j in judge_from..len {
                     let (in_lit, ix, dual, shuffle, battery, _) = elems[j];
                     if battery {
                         continue;
@@ -532,6 +537,7 @@ impl Planner {
                     }
                     specs.push(s);
                 }
+            }
             }
         }
         // B5: finite-group symbols (expected "no" by the invariant filter)
@@ -773,18 +779,20 @@ impl Planner {
                     Lens(usize, usize),
                 }
                 let lens: Vec<(usize, usize)> = [5usize, 7, 8, 9, 11, 13].iter().flat_map(|&p| (1..=p / 2).filter(move |&q| gcd(p, q) == 1).map(move |q| (p, q))).collect();
-                let n_sessions = if thorough { 3000 } else { 200 };
+                let configs: [(usize, usize, usize, usize, u64); 2] = if thorough { [(3000, 3, 6, 1, 0x5E56), (200, 12, 29, 8, 0x5E58)] } else { [(200, 3, 6, 1, 0x5E56), (48, 12, 29, 8, 0x5E58)] };
+                for (n_sessions, len_lo, len_span, judge_from, salt) in configs {
                 for si in 0..n_sessions {
-                    let mut r = SplitMix64::new(hmix(&[self.seed, 0x5E56, si as u64]));
-                    let len = 3 + r.below(6);
+                    let mut r = SplitMix64::new(hmix(&[self.seed, salt, si as u64]));
+                    let len = len_lo + r.below(len_span);
                     // (item, run as is_euclidean/battery instead of simplify: 0 = simplify, 1 = is_euclidean, 2 = battery)
                     let mut elems: Vec<(It, u8, Option<u64>)> = vec![];
                     for j in 0..len {
                         let it = if j > 0 && r.chance(1, 4) {
                             elems[r.below(j)].0.clone()
                         } else {
-                            match r.below(4) {
-                                0 | 1 => It::Ptc(r.below(corpus.k0.len()), r.chance(1, 3)),
+                            // long sessions: mostly tori (the expensive rewriting paths)
+                            match if judge_from > 1 { r.below(8) } else { r.below(4) } {
+                                0 | 1 | 4 | 5 | 6 | 7 => It::Ptc(r.below(corpus.k0.len()), r.chance(1, 3)),
                                 2 => It::Cube(r.below(family.len())),
                                 _ => {
                                     let l = lens[r.below(lens.len())];
@@ -822,7 +830,7 @@ impl Planner {
                         p.abort_at = e.2;
                         p
                     };
-                    for j in 1..len {
+                    for j in judge_from..len {
                         if elems[j].1 != 0 {
                             continue;
                         }
@@ -859,6 +867,7 @@ impl Planner {
                         }
                         specs.push(s);
                     }
+                }
                 }
             }
         }
